@@ -320,4 +320,49 @@ theorem stepOk_put_mid {P : FsParams} {pre post : Vol} {p : Bytes} {cs : List (N
   · rw [hwo]
     exact sameFiles_self nd
 
+/-- **mkdir as an insertion**: the record of a new directory appears (anywhere in the listing) under a fresh path, all other
+records are identical -/
+theorem stepOk_mkdir_mid {P : FsParams} {pre post : Vol} {p : Bytes} {FA FB : List FileRec} {g : FileRec}
+    (hwpre : pre.wfB = true) (hw : post.wfB = true) (hp : p ∉ pre.paths)
+    (hpre : pre.files = FA ++ FB) (hpost : post.files = FA ++ g :: FB) (hfp : g.path = p)
+    (hd : g.isDir = true) (hfree : ∀ u ∈ g.owned, u ∈ pre.freeUnits) :
+    stepOk P pre (.mkdir p) true post = true := by
+  have nd := wfB_paths_nodup hwpre
+  have hnone : pre.lookup p = none := lookup_none_of_not_mem hp
+  have hne : ∀ f ∈ FA ++ FB, (f.path == p) = false := by
+    intro f hf
+    have : f.path ≠ p := fun e => hp (by rw [← e]; unfold Vol.paths; rw [hpre]; exact List.mem_map_of_mem hf)
+    simpa using this
+  have hlook : post.lookup p = some g := by
+    unfold Vol.lookup
+    rw [hpost, List.find?_append]
+    have : FA.find? (·.path == p) = none := by
+      rw [List.find?_eq_none]; intro f hf; rw [hne f (List.mem_append_left _ hf)]; simp
+    rw [this, Option.none_or, List.find?_cons]
+    simp [hfp]
+  have hwo : without post.files [p] = pre.files := by
+    unfold without
+    rw [hpost, hpre, List.filter_append, List.filter_cons]
+    have hg : (!([p].contains g.path)) = false := by simp [hfp]
+    rw [hg]
+    have hfa : FA.filter (fun f => !([p].contains f.path)) = FA := by
+      rw [List.filter_eq_self]; intro f hf
+      have := hne f (List.mem_append_left _ hf)
+      simp only [List.contains_cons, List.contains_nil, Bool.or_false, Bool.not_eq_true']
+      exact this
+    have hfb : FB.filter (fun f => !([p].contains f.path)) = FB := by
+      rw [List.filter_eq_self]; intro f hf
+      have := hne f (List.mem_append_right _ hf)
+      simp only [List.contains_cons, List.contains_nil, Bool.or_false, Bool.not_eq_true']
+      exact this
+    rw [hfa, hfb]
+    rfl
+  simp only [stepOk, stepConds, List.all_cons, List.all_nil, Bool.and_true, Bool.and_eq_true]
+  refine ⟨hw, by rw [hnone]; rfl, ?_, ?_⟩
+  · rw [hlook]
+    simp only [Bool.and_eq_true, List.all_eq_true, List.contains_eq_mem, decide_eq_true_eq]
+    exact ⟨hd, hfree⟩
+  · rw [hwo]
+    exact sameFiles_self nd
+
 end A2Verif
